@@ -473,6 +473,11 @@ def check(fx, rep, tier):
             )
         rep.floor("R08.6", len(readers), 1, "functions handing stored memory data to loads")
 
+    # "both outcomes are explored while the limits allow": a thread is retired exactly when a configured limit says so - the
+    # normal form of the stop condition (visit limit at ip+1, gas used > limit, killed) is C03 R03.1, re-evaluated
+    from .. import core as _core3
+
+    _core3.import_rules(rep, fx, "C03", "R08.5", only_rules=("R03.1",), floor=8, what="stop-condition obligations (C03 R03.1) behind 'while the limits allow'")
     # jump targets computed from PC: PC pushes the offset of the PC instruction itself (shared with C07 R07.2)
     from .. import core
     from .c07 import check_pc_value
